@@ -119,6 +119,63 @@ func init() {
 // boundaryTails are the ends of clear windows that meet the envelope (see the directed cases of the masking stream).
 var boundaryTails = [][]byte{[]byte("%"), []byte("%%"), []byte("a%"), []byte("%a%"), []byte("\""), []byte("\"\""), []byte("\"\"\""), []byte("%%%%"), []byte("%\"")}
 
+// classFalseHeader: input class of the known finding – some position inside the clear window of the stored value
+// (read together with the bytes that follow it) decodes as the start of a serialized container with a valid declared
+// length: `%%%`, 8 length bytes L (little endian) with 12 ≤ L ≤ remaining bytes, a registered envelope id, and more than
+// 12 bytes remaining. Decided here on the stored bytes, independently of the code under test and of the model (the
+// model's `maskWindowOk` is its negation).
+const classFalseHeader = "window-false-header-shows-container-bytes"
+
+func falseHeaderInWindow(stored []byte, side string, k int) bool {
+	lo, hi := 0, k
+	if side != "left" {
+		lo, hi = len(stored)-k, len(stored)
+	}
+	if lo < 0 || hi > len(stored) {
+		return false
+	}
+	for p := lo; p < hi; p++ {
+		rest := stored[p:]
+		if len(rest) <= 12 || !bytes.HasPrefix(rest, []byte("%%%")) || (rest[11] != 0xF0 && rest[11] != 0xF1) {
+			continue
+		}
+		var l uint64
+		for j := 0; j < 8; j++ {
+			l |= uint64(rest[3+j]) << (8 * uint(j))
+		}
+		if l >= 12 && l <= uint64(len(rest)) {
+			return true
+		}
+	}
+	return false
+}
+
+// knownFalseHeader: regression witness of the known finding (run first on every run): masked column, left window 15,
+// value `%%%%` 12 00…00 f0 `%%` | `%rcdaqum` – the window holds a false header declaring 18 bytes from its 2nd byte on.
+func knownFalseHeader(r *core.Run) {
+	g := core.NewRand(0xC11)
+	owner := env.NewKV(g, 1, 1)
+	none := &env.KV{NoPub: true, NoPrivs: true, NoSym: true, NoSyms: true}
+	v := append([]byte{'%', '%', '%', '%', 0x12, 0, 0, 0, 0, 0, 0, 0, 0xF0, '%', '%'}, []byte("%rcdaqum")...)
+	for _, kind := range []string{"block", "struct"} {
+		cfg := fmt.Sprintf("%s %s 15 left", kind, core.Hex([]byte("masked-")))
+		r.Begin("corpus-false-header-"+kind, true, "stream:corpus")
+		stored, ok := okBytes(r.Do(fmt.Sprintf("C11.write %s %s %s %s", cfg, owner.Tokens(), core.Hex(v), core.Hex(g.Bytes(96)))))
+		if !r.Check(ok && len(stored) > 40, "corpus-broken", "cannot write the regression witness of the false-header finding") {
+			continue
+		}
+		r.Check(falseHeaderInWindow(stored, "left", 15) && r.ModelOnly(fmt.Sprintf("C11.windowok left %s %s", core.Hex(stored[:15]), core.Hex(stored[15:]))) == "false",
+			"corpus-broken", "the regression witness is not in the input class of the false-header finding")
+		got, ok := okBytes(r.Do(fmt.Sprintf("C11.read %s %s %s", cfg, none.Tokens(), core.Hex(stored))))
+		if !r.Check(ok, "mask-read-failed", "masked read failed for a reader without keys") {
+			continue
+		}
+		if bytes.Contains(got, stored[len(stored)-16:]) {
+			r.Fail(classFalseHeader, fmt.Sprintf("a reader without keys receives %d raw bytes of the container (window `%%%%%%%%\\x12\\0…\\0\\xf0%%%%`, hidden `%%rcdaqum`, %s): got %s", len(got)-8, kind, core.Hex(got[:min(len(got), 24)])))
+		}
+	}
+}
+
 func okBytes(out string) ([]byte, bool) {
 	if len(out) >= 4 && out[:3] == "ok " {
 		return core.UnHex(out[3:]), true
@@ -150,6 +207,7 @@ func run(r *core.Run) {
 			r.Check(got != core.Panic, "mask-scan-length", fmt.Sprintf("masked-column scan panics on a false container header with length %d", w.length))
 		}
 	}
+	knownFalseHeader(r)
 	// patterns are configuration strings (YAML text): printable ASCII only
 	patterns := [][]byte{[]byte("xxxx"), []byte("*"), []byte("%%%"), []byte("\"\"\"\""), []byte("masked-"), []byte("%%%%%%%%%%%%%"), []byte("0")}
 	n := r.N(120, 4000)
@@ -371,13 +429,14 @@ func run(r *core.Run) {
 			}
 			for off := 12; off+8 <= len(prot); off += 8 {
 				if bytes.Contains(got, prot[off:off+8]) && !bytes.Contains(want, prot[off:off+8]) {
-					if !winok {
-						// a position INSIDE the clear window decodes as a container start (false `%%%`+length+id header):
-						// the scan replaces it by the pattern, advances by ITS declared length and so steps over the
-						// real container's header – the rest of the container is shown raw. In-band signalling,
-						// inherent in the stored format (DESIGN §7 C11 "Deviation", hypothesis `maskWindowOk` of the
-						// read theorems); recorded, compared with the model, not judged
+					// judged on ALL windows. Known finding: a position INSIDE the clear window decodes as a container
+					// start (false `%%%`+length+id header with a valid declared length): the scan replaces it by the
+					// pattern, advances by ITS declared length and so steps over the real container's header – the rest
+					// of the container is shown raw (Props.C11.mask_other_window_counterexample). Any other way of
+					// receiving ciphertext is a violation.
+					if falseHeaderInWindow(stored, side, len(window)) {
 						r.Tag("window:false-header-shows-container-bytes")
+						r.Fail(classFalseHeader, fmt.Sprintf("a reader without the key received container bytes: the clear window holds a false container header (cfg %s, value %s)", cfg, core.Hex(v)))
 						break
 					}
 					r.Fail("mask-leak-cipher", "a reader without the key received ciphertext bytes")
